@@ -806,21 +806,21 @@ package compose
 //@   ensures[all_four_paradigms_available] @C04 (i != nil || s != nil || c != nil || t != nil) ==> result.i != nil && result.s != nil && result.c != nil && result.t != nil
 
 //@ func (*ToolsNode).genToolCallTasks
-//@   props C17
+//@   props C17 C10
 //@   requires tn != nil && tuple != nil && input != nil
 //@   requires[tables] tupleOK(tuple)
 //@   ensures[role] input.Role != "assistant" ==> result1 != nil
 //@   ensures[none] len(input.ToolCalls) == 0 ==> result1 != nil
 //@   ensures[len] result1 == nil ==> len(result0) == len(input.ToolCalls) && len(result0) > 0 && fresh(result0)
 //@   ensures[ids] result1 == nil ==> forall(i int :: 0 <= i && i < len(result0) ==> result0[i].callID == input.ToolCalls[i].ID && result0[i].arg == input.ToolCalls[i].Function.Arguments && result0[i].name == input.ToolCalls[i].Function.Name)
-//@   ensures[known_tool] result1 == nil ==> forall(i int :: 0 <= i && i < len(result0) && in(input.ToolCalls[i].Function.Name, tuple.indexes) ==> result0[i].r == tuple.rps[tuple.indexes[input.ToolCalls[i].Function.Name]] && result0[i].meta == tuple.meta[tuple.indexes[input.ToolCalls[i].Function.Name]])
+//@   ensures[known_tool] @C17,C10 result1 == nil ==> forall(i int :: 0 <= i && i < len(result0) && in(input.ToolCalls[i].Function.Name, tuple.indexes) ==> result0[i].r == tuple.rps[tuple.indexes[input.ToolCalls[i].Function.Name]] && result0[i].meta == tuple.meta[tuple.indexes[input.ToolCalls[i].Function.Name]])
 //@   ensures[unknown_tool] (exists(i int :: 0 <= i && i < len(input.ToolCalls) && !in(input.ToolCalls[i].Function.Name, tuple.indexes))) && tn.unknownToolHandler == nil && input.Role == "assistant" ==> result1 != nil
 //@   ensures[clean] result1 == nil ==> forall(i int :: 0 <= i && i < len(result0) ==> result0[i].err == nil)
 //@   loop 1:
 //@     modifies elems(toolCallTasks), fresh()
 //@     invariant[idx] 0 <= i && i <= n
 //@     invariant[ids] forall(j int :: 0 <= j && j < i ==> toolCallTasks[j].callID == input.ToolCalls[j].ID && toolCallTasks[j].arg == input.ToolCalls[j].Function.Arguments && toolCallTasks[j].name == input.ToolCalls[j].Function.Name)
-//@     invariant[known_tool] forall(j int :: 0 <= j && j < i && in(input.ToolCalls[j].Function.Name, tuple.indexes) ==> toolCallTasks[j].r == tuple.rps[tuple.indexes[input.ToolCalls[j].Function.Name]] && toolCallTasks[j].meta == tuple.meta[tuple.indexes[input.ToolCalls[j].Function.Name]])
+//@     invariant[known_tool] @C17,C10 forall(j int :: 0 <= j && j < i && in(input.ToolCalls[j].Function.Name, tuple.indexes) ==> toolCallTasks[j].r == tuple.rps[tuple.indexes[input.ToolCalls[j].Function.Name]] && toolCallTasks[j].meta == tuple.meta[tuple.indexes[input.ToolCalls[j].Function.Name]])
 //@     invariant[all_known_or_handler] forall(j int :: 0 <= j && j < i ==> in(input.ToolCalls[j].Function.Name, tuple.indexes) || tn.unknownToolHandler != nil)
 //@     invariant[clean] forall(j int :: 0 <= j && j < n ==> toolCallTasks[j].err == nil)
 
@@ -929,11 +929,18 @@ package compose
 
 //@ func (*graph).updateToValidateMap
 //@   props C07
-//@   trusted type inference over pass-through nodes and edge checks: not yet under a functional contract (C07); only its write set is declared
+//@   skip pre safe frame post
+//@   note partial: the postconditions below (used by addEdge / addBranch) and the write set are NOT proved for this fixpoint loop (skip post, frame: they are trusted); only the assertions at the call sites inside it are verified, for every iteration and map order
 //@   requires g != nil
 //@   modifies validateState(g)
 //@   ensures[types_kept] forall(k string :: old(in(k, g.nodes)) && old(g.nodes[k].cr.inputType) != nil ==> g.nodes[k].cr.inputType == old(g.nodes[k].cr.inputType))
 //@   ensures[nodes_same] nodesSame(g)
+//@   ghost curEnd string = ""
+//@   at call g.getNodeInputType: ghost curEnd = arg0
+//@   at call g.getNodeGenericHelper(startNode).forSuccessorPassthrough: assert[successor_passthrough_inherits_from_its_predecessor] @C07 startNodeOutputType != nil && endNodeInputType == nil
+//@   at call g.getNodeGenericHelper(endNode.endNode).forPredecessorPassthrough: assert[predecessor_passthrough_inherits_from_its_successor] @C07 startNodeOutputType == nil && endNodeInputType != nil
+//@   at call g.getNodeGenericHelper: assert[helpers_of_this_edge_only] @C07 arg0 == startNode || arg0 == curEnd
+//@   at call checkAssignable: assert[edge_types_compared] @C07 arg0 == startNodeOutputType && arg1 == endNodeInputType && arg0 != nil && arg1 != nil
 
 //@ func (*graph).addToValidateMap
 //@   props C07 C20
@@ -1212,6 +1219,7 @@ package compose
 //@   at call tm.submit: assert[interrupt_before_honoured] @C06 (supersteps == 0 && fromCp) || noneBefore(r, nextTasks)
 //@   at call tm.submit: ghost supersteps++
 //@   at call 1 r.handleInterrupt: assert[initial_before_reported] @C06 forall(i int :: 0 <= i && i < len(nextTasks) && inList(nextTasks[i].nodeKey, r.interruptBeforeNodes) ==> inList(nextTasks[i].nodeKey, hit))
+//@   at call 2 r.handleInterrupt: assert[no_rerun_or_subgraph_interrupt_dropped] @C06 len(interruptRerunNodes) == 0 && len(subGraphInterrupts) == 0
 //@   at call 2 r.handleInterrupt: assert[every_pending_task_saved] @C05 len(arg3) == len(nextTasks) + len(newNextTasks)
 //@   at call 1 r.handleInterrupt: assert[initial_tasks_saved] @C05 len(arg3) == len(nextTasks) && arr(arg3) == arr(nextTasks) && off(arg3) == off(nextTasks)
 //@   at call 2 r.handleInterrupt: assert[before_reported] @C06 forall(i int :: 0 <= i && i < len(nextTasks) && inList(nextTasks[i].nodeKey, r.interruptBeforeNodes) ==> inList(nextTasks[i].nodeKey, interruptBeforeNodes))
